@@ -126,6 +126,15 @@ pub fn build(
         };
 
         let vftable_path = vftable_type.path.clone();
+        // The generated vftable type may be re-added while its owner is still being resolved,
+        // but it must never replace an item the user declared under the same name.
+        if let Some(existing) = semantic.type_registry.get(&vftable_path) {
+            if existing != &vftable_type {
+                anyhow::bail!(
+                    "the vftable type `{vftable_path}` generated for `{resolvee_path}` collides with an existing item of the same name"
+                );
+            }
+        }
         let vftable_pointer_type = Type::ConstPointer(Box::new(Type::Raw(vftable_path)));
         semantic.add_item(vftable_type)?;
 
